@@ -56,11 +56,20 @@ class Slice:
         self.S1, self.S2, self.S3, self.U, self.R1, self.S4, self.S5, self.S6 = S1, S2, S3, U, R1, S4, S5, S6
         R4 = mkstruct(f"{t}R4", {"tag": X.Int64, "top": X.Ref[R1], "z": X.Float64})  # a reference chain: R4.top -> R1 -> {S1, Float64[:], union member}
         self.R2, self.R3, self.R4 = R2, R3, R4
-        self.roots = [S1, S2, S3, R1, S4, S5, S6, R2, R3, R4]
+        # union families: the same member types at other positions (reversed list; a derived union that prepends a member)
+        U2 = X.ref.MetaUnionRef(f"{t}U2", (X.UnionRef,), {"_reftypes": [S2, S1]})
+        U3 = X.ref.MetaUnionRef(f"{t}U3", (U,), {"_reftypes": [S4] + list(U._reftypes)})
+        R5 = mkstruct(f"{t}R5", {"k": X.Int64, "u": U, "v": U2, "w": U3})
+        self.U2, self.U3, self.R5 = U2, U3, R5
+        # three-dimensional arrays whose axis order is a cyclic permutation (the only orders that differ from their inverse)
+        S7 = mkstruct(f"{t}S7", {"n": X.Int64, "c": X.Float64[2:1, 3:2, 2:0], "d": X.Int32[:2, :0, :1]})
+        self.S7 = S7
+        self.roots = [S1, S2, S3, R1, S4, S5, S6, R2, R3, R4, R5, S7]
         self.arrays = [
             X.Float64[:, 3], X.Int16[2:1, 3:0], X.Int64[:, :, 2], S1[:], S2[:], S2[2], X.UInt8[5], X.Float32[:],
             X.String[:], X.Int32[None:1, None:2, None:0], X.Int8[2:2, 3:0, 2:1], X.Int8[:][:], X.Float32[:][2],
             X.String[2:1, 3:0], X.String[:, 2], S2[2, 2], X.Ref[S1][:], X.Ref[S1][2],
+            X.String[2:1, 3:2, 2:0], X.String[:2, 2:0, :1],
         ]
         if tier == "thorough":
             self.arrays += [
